@@ -482,6 +482,19 @@ func (s *g) rows() []gen.Row {
 		// m is always absent
 		rows[i] = r
 	}
+	// a wild row: the numeric columns hold text (sensor glitch). Its own value is not fixed by the property, but it is
+	// part of the history the later rows must not depend on; most often it is the very first row an expression sees.
+	if s.pick("wild", 6) == 0 {
+		i := 0
+		if s.pick("wildpos", 3) == 0 {
+			i = s.pick("wildat", n)
+		}
+		rows[i]["a"] = gen.Str(s.oneOf("wilda", []string{"n/a", "12", "", "x"}))
+		if s.pick("wildb", 2) == 0 {
+			rows[i]["b"] = gen.Str("n/a")
+		}
+		rows[i]["wild"] = gen.Bool(true)
+	}
 	return rows
 }
 
